@@ -415,9 +415,9 @@ func mutOps() []mutOp {
 				{"int-for-input-object", "In0", VInt("1")}, {"bool-for-id", "ID", VBool(true)}, {"string-for-boolean", "Boolean", VStr("true")},
 				{"string-for-float", "Float", VStr("1.0")}, {"float-for-id", "ID", VFloat("1.5")}, {"list-for-input-object", "In1", VList(VInt("1"))},
 			}
-			perm := m.r.Perm(len(vars))
-			for _, pi := range perm {
-				vv := vars[pi]
+			start := m.r.Pick(len(vars))
+			for k := range vars {
+				vv := vars[(start+k)%len(vars)]
 				c := literalSites(m, func(s *vsite) bool {
 					k := s.get().Kind
 					return s.t.Nullable().Kind == 0 && s.t.Base() == vv.base && k != "var" && k != "null"
